@@ -124,8 +124,8 @@ class Ctx:
             a = acts.setdefault(name, [0, 0])
             a[0] += d
             a[1] += c
-            if c == 0 and name != "Init":
-                zero.append(m.group(0))
+        # an action is never taken when the counts of *all* its coverage lines (one per syntactic location) are zero
+        zero = [n for n, v in acts.items() if v[1] == 0 and n != "Init"]
         acts["__never_taken__"] = zero
         return gen, dist, acts
 
